@@ -20,7 +20,14 @@
 //!
 //! ORCL (on the implementation alone): no panic; calls well nested; path data not starting with a
 //! move-to rejected; error line/column equal an independent recomputation from the input; the
-//! round trip `format!("{:?}", path)` → parse → identical events and attributes.
+//! round trip `format!("{:?}", path)` → parse → identical events and attributes; every number
+//! `{:?}` prints for a finite f32 has the shape `-?D+.D+` or `-?D(.D+)?e-?D+` (the hypothesis of
+//! `printOK_of_debug_shape`).  Paths with non-finite coordinates print as `inf`/`NaN`, which the
+//! path syntax (like SVG's) cannot express: the oracle only demands that such text is rejected
+//! with an error (no panic, nested calls) and records the case as `skip roundtrip-non-finite`.
+//!
+//! The classes `no-initial-moveto` and `leading-newline` are the witness classes of the two
+//! defects repaired by the fix commits 00996849 and c7c34442; they stay active.
 
 use lyon_extra::parser::{ParseError, ParserOptions, PathParser, Source};
 use lyon_path::builder::PathBuilder;
@@ -317,8 +324,6 @@ fn oracle(chars: &[char], stop: Option<char>, run: &Run, orc: &mut Oracle) {
     if run.res.is_none() {
         let class = if run.panic_msg.contains("index out of bounds") && no_begin_at_all {
             "no-initial-moveto"
-        } else if run.panic_msg.contains("unwrap()") && run.panic_msg.contains("None") {
-            "arc-nonfinite"
         } else {
             "generic"
         };
@@ -391,6 +396,49 @@ fn events_of(path: &Path) -> Vec<Ev> {
     out
 }
 
+/// `-?D+.D+` or `-?D(.D+)?e-?D+`
+fn debug_shape_ok(t: &str) -> bool {
+    let b = t.as_bytes();
+    let mut i = 0;
+    let digits = |i: &mut usize| -> usize {
+        let s = *i;
+        while *i < b.len() && b[*i].is_ascii_digit() {
+            *i += 1;
+        }
+        *i - s
+    };
+    if i < b.len() && b[i] == b'-' {
+        i += 1;
+    }
+    let n_int = digits(&mut i);
+    if n_int == 0 {
+        return false;
+    }
+    let mut has_frac = false;
+    if i < b.len() && b[i] == b'.' {
+        i += 1;
+        if digits(&mut i) == 0 {
+            return false;
+        }
+        has_frac = true;
+    }
+    if i == b.len() {
+        return has_frac;
+    }
+    if b[i] != b'e' || n_int != 1 {
+        return false;
+    }
+    i += 1;
+    if i < b.len() && b[i] == b'-' {
+        i += 1;
+    }
+    digits(&mut i) > 0 && i == b.len()
+}
+
+fn path_floats(path: &Path) -> Vec<f32> {
+    events_of(path).iter().flat_map(|e| e.1.iter().map(|b| f32::from_bits(*b))).collect()
+}
+
 fn rt_coord(rng: &mut Rng, style: u64) -> f32 {
     match style {
         0 => rng.range(-20, 20) as f32,
@@ -409,11 +457,14 @@ fn rt_coord(rng: &mut Rng, style: u64) -> f32 {
     }
 }
 
-fn random_path(rng: &mut Rng, na: usize) -> Path {
+fn random_path(rng: &mut Rng, na: usize, nonfinite: bool) -> Path {
     let mut b = Path::builder_with_attributes(na);
     let style = rng.below(5);
-    let n_sub = rng.range(0, 4);
+    let n_sub = if nonfinite { rng.range(1, 3) } else { rng.range(0, 4) };
     let co = |rng: &mut Rng| -> f32 {
+        if nonfinite && rng.chance(1, 6) {
+            return *rng.pick(&[f32::INFINITY, f32::NEG_INFINITY, f32::NAN, -f32::NAN]);
+        }
         let s = if rng.chance(1, 5) { rng.below(5) } else { style };
         rt_coord(rng, s)
     };
@@ -657,17 +708,29 @@ fn str_case(ctx: &mut Ctx, text: String, na: usize, stop: Option<char>, tag: Str
             oracle(&chars, stop, &run, &mut orc);
             if let Some(orig) = original {
                 // round trip into a real path builder
+                let floats = path_floats(&orig);
+                let finite = floats.iter().all(|v| v.is_finite());
                 let mut b = Path::builder_with_attributes(na);
                 let mut parser = PathParser::new();
                 let r = parser.parse(&options(na, stop), &mut Source::new(chars.iter().copied()), &mut b);
-                orc.check(r.is_ok(), "roundtrip/parses", "generic", || format!("printed path rejected: {:?}", r));
-                if r.is_ok() {
-                    let back = b.build();
-                    let (e1, e2) = (events_of(&orig), events_of(&back));
-                    orc.check(e1 == e2, "roundtrip/identical", "generic", || {
-                        let k = e1.iter().zip(e2.iter()).position(|(a, b)| a != b).unwrap_or(e1.len().min(e2.len()));
-                        format!("events differ at {} ({} vs {} events): {:?} vs {:?}", k, e1.len(), e2.len(), e1.get(k), e2.get(k))
-                    });
+                if finite {
+                    for v in &floats {
+                        let t = format!("{:?}", v);
+                        orc.check(debug_shape_ok(&t), "roundtrip/debug-shape", "generic", || format!("{:?} prints as {}", v.to_bits(), t));
+                    }
+                    orc.check(r.is_ok(), "roundtrip/parses", "generic", || format!("printed path rejected: {:?}", r));
+                    if r.is_ok() {
+                        let back = b.build();
+                        let (e1, e2) = (events_of(&orig), events_of(&back));
+                        orc.check(e1 == e2, "roundtrip/identical", "generic", || {
+                            let k = e1.iter().zip(e2.iter()).position(|(a, b)| a != b).unwrap_or(e1.len().min(e2.len()));
+                            format!("events differ at {} ({} vs {} events): {:?} vs {:?}", k, e1.len(), e2.len(), e1.get(k), e2.get(k))
+                        });
+                    }
+                } else {
+                    // `inf` / `NaN` are not path syntax: the text must be rejected, not misread
+                    orc.check(r.is_err(), "roundtrip/non-finite-rejected", "generic", || "text with inf/NaN parsed Ok".to_string());
+                    orc.skip("roundtrip-non-finite");
                 }
             }
             CaseOut { imp: o, orcl: orc.verdict }
@@ -828,16 +891,17 @@ fn main() {
             _ => {
                 // round trip of a stored path through `{:?}`
                 let na = rng.range(0, 3) as usize;
-                let path = random_path(&mut rng, na);
+                let nonfinite = rng.chance(1, 10);
+                let path = random_path(&mut rng, na, nonfinite);
                 let printed = format!("{:?}", path);
                 if rng.chance(1, 2) {
                     // the text between the quotes
                     let inner = printed[1..printed.len() - 1].to_string();
-                    str_case(&mut ctx, inner, na, None, "roundtrip inner".to_string(), Some(path));
+                    str_case(&mut ctx, inner, na, None, format!("roundtrip{} inner", if nonfinite { "-nonfinite" } else { "" }), Some(path));
                 } else {
                     // skip the opening quote, stop at the closing one
                     let rest = printed[1..].to_string();
-                    str_case(&mut ctx, rest, na, Some('"'), "roundtrip stop-at-quote".to_string(), Some(path));
+                    str_case(&mut ctx, rest, na, Some('"'), format!("roundtrip{} stop-at-quote", if nonfinite { "-nonfinite" } else { "" }), Some(path));
                 }
             }
         }
